@@ -136,10 +136,6 @@ Section BlockEngine.
     mkBIn Engine.PerformLayout true known (mkSize (avail_into_option (s_w avail)) (avail_into_option (s_h avail))) avail
           (mkLine false false).
 
-  (* every stored layout of a tree, in preorder *)
-  Fixpoint layouts (t : Engine.tree (BNode T) (BIn T) (ChildOut T) (BLayout T)) : list (BLayout T) :=
-    match t with Engine.Node _ _ _ _ _ _ l kids => l :: flat_map layouts kids end.
-
   (* ---- C12: the rewrite content-box -> border-box on a BStyle *)
   Definition b_grow (pb : T) (d : LPA T) : LPA T := match d with Len l => Len (add l pb) | o => o end.
   Definition b_grow_size (pb : BSize T) (s : BSize (LPA T)) : BSize (LPA T) :=
